@@ -423,7 +423,9 @@ impl Address {
         // byron addresses:
         // bits 7-4: 1000
         (|| -> Result<Self, DeserializeError> {
-            let header = data[0];
+            let header = *data
+                .first()
+                .ok_or_else(|| DeserializeError::from(cbor_event::Error::NotEnough(0, 1)))?;
             let network = header & 0x0F;
             const HASH_LEN: usize = Ed25519KeyHash::BYTE_COUNT;
 
